@@ -326,6 +326,25 @@ class Judge:
             return out
         if s.solver_name in B.RETURNS_CALLER_W and s.solver_name != "GramCD":
             if not res.get("same_object"):
+                # the solver did not hand back the caller's coefficient array: then the pair the
+                # caller still holds must be a consistent (w, X w + b) pair too - a solver that
+                # iterates on a copy of w_init while updating Xw_init in place leaves the caller
+                # with the start point and the model fit of the solution (round 5)
+                if res.get("w_buf") is None:
+                    return out
+                try:
+                    wb, bb = pr.split(res["w_buf"])
+                    fit_b = pr.predictor(wb, bb)
+                except Exception:
+                    return out
+                if np.shape(res["Xw_buf"]) == np.shape(fit_b) and pr.finite(wb, bb):
+                    err_b = float(np.max(np.abs(res["Xw_buf"] - fit_b)))
+                    scale_b = float(np.max(pr.absX @ np.abs(wb)) + np.max(np.abs(bb)) + 1.0)
+                    if err_b > 1e-9 * scale_b:
+                        out.append(dict(prop=["C05"], oracle="buffer_pair",
+                                        sig=_family_sig(s) + ("caller_buffers_not_a_pair",),
+                                        detail=dict(err=err_b),
+                                        feat=self.feat(res, dict(err=err_b, rel=err_b / scale_b))))
                 return out
             fit = pr.predictor(w, b)
             if np.shape(res["Xw_buf"]) != np.shape(fit):
